@@ -180,6 +180,12 @@ public:
         for (int attempt = 0; attempt < 6; ++attempt) {
           Op fo(FAULTS[rng.weighted(sw.faultW)], docIdx, rng.chance(0.2) ? 1 : 0, rng.below(3), rng.below(4096));
           fo.x = static_cast<double>(rng.below(256));
+          if (haveShadow && fo.k == "f.torn" && rng.chance(0.35)) {
+            // tear right after a structural character (delimiter, bracket, '=', backslash, line end): the cut points where readers change state
+            const std::string& txt = shadow.stored[static_cast<size_t>(fo.c) % shadow.stored.size()];
+            std::vector<size_t> pos; for (size_t q = 0; q < txt.size(); ++q) if (std::strchr(",;:=()[]{} \t\\\n", txt[q])) pos.push_back(q);
+            if (!pos.empty()) fo.d = static_cast<long>(pos[static_cast<size_t>(rng.below(static_cast<long>(pos.size())))] + 1);
+          }
           if (haveShadow) {
             Doc trial = shadow; size_t fi = static_cast<size_t>(fo.c) % trial.stored.size();
             if (fo.b & 1) trial.stored[fi] = trial.orig[fi];
